@@ -79,7 +79,13 @@ def budget_case(case) -> List[Tuple[str, str]]:
             # without stage budgets (kill switch on, so the graph and its etag stay as they are), caches on
             over["t1"] = {"cache": {"enabled": True, "max_entries": 64, "ttl_s": 3600}}
             over["t2"] = {"cache": {"enabled": True, "max_entries": 64, "ttl_s": 3600}}
-        s = Session(os.path.join(work, "s"), base_cfg=over)
+        graphs_ = None
+        if case.get("graphs2"):
+            # two active graphs that the text seeds alike: the slice budgets are budgets of the STAGE, not of each graph
+            g0 = E.DEFAULT_GRAPHS["g:surface"]
+            graphs_ = {"g:surface": g0, "g:second": {"nodes": [(i.replace("n:", "m:"), lab, tags) for i, lab, tags in g0["nodes"]],
+                                                      "edges": [(e.replace("e", "f"), a.replace("n:", "m:"), b_.replace("n:", "m:"), w, r) for e, a, b_, w, r in g0["edges"]]}}
+        s = Session(os.path.join(work, "s"), base_cfg=over, graphs=graphs_)
         s.text = case["text"]
         if case.get("warm"):
             # (generous explicit stage budgets in every other warm case: the next turn REUSES the context object, and what the
@@ -195,6 +201,8 @@ def check(run) -> None:
             if text == "apple" and iters is None:
                 continue
             bcases.append({"budgets": b, "quantum": 20, "wall": 200, "text": text, "workdir": run.workdir})
+            if (pops is not None or iters is not None) and k is None and ops is None:
+                bcases.append({"budgets": b, "quantum": 20, "wall": 200, "text": text, "workdir": run.workdir, "graphs2": True})
             if pops is not None or iters is not None or k is not None:
                 bcases.append({"budgets": b, "quantum": 20, "wall": 200, "text": text, "workdir": run.workdir, "warm": True})
     for c, fails in zip(bcases, pmap(budget_case, bcases, chunk=2)):
@@ -203,7 +211,10 @@ def check(run) -> None:
         if not fails:
             run.ok("Turn.budgets_clamp")
         for clause, msg in fails:
-            run.fail(clause, {"family": "turn", "clause": clause}, {k: v for k, v in c.items() if k != "workdir"}, msg,
+            sig = {"family": "turn", "clause": clause}
+            if c.get("graphs2"):
+                sig["active_graphs"] = 2
+            run.fail(clause, sig, {k: v for k, v in c.items() if k != "workdir"}, msg,
                      replay={"family": "turn_budget", "case": {k: v for k, v in c.items() if k != "workdir"}})
 
 
